@@ -7,7 +7,60 @@ TRAPS = ["TrapSendAfterSwap", "TrapReportToGoneSender", "TrapOfferAfterCancel", 
          "TrapWriteAfterClientClose", "TrapWaitDuringTeardown", "TrapDoubleTerminate"]
 
 
+def churn(ctx):
+    """Real parallelism: free-running clients against a real server on all cores (spec/Churn.tla), plain and under the race detector."""
+    import re
+    ctx.tlc("Churn", "Churn_mc.cfg", workers=4)
+    info = {}
+    for race in (False, True):
+        binary = ctx.build_driver("server", race=race)
+        tag = "race" if race else "plain"
+        tpath, opath = os.path.join(ctx.work, "churn_%s.ndjson" % tag), os.path.join(ctx.work, "churn_%s_out.ndjson" % tag)
+        rounds = (8 if race else 20) if ctx.quick else (60 if race else 300)
+        rc, out = ctx.run_driver(binary, test_run="^TestChurn$", env={"VERIF_CHURN_TRACE": tpath, "VERIF_OUT": opath, "VERIF_CHURN_ROUNDS": rounds,
+                                                                      "GORACE": "halt_on_error=0 exitcode=0"}, timeout=1500, ok_rc=(0, 1, 2, 66))
+        fatal = re.search(r"^fatal error: (.*)$", out, re.M) or re.search(r"^panic: (.*)$", out, re.M)
+        if fatal:
+            frames = [l.strip() for l in out.splitlines() if "github.com/ovh/kmip-go/kmipserver." in l]
+            ctx.violation("churn:process-died:" + fatal.group(1)[:60], "the server process died under connection churn (%s): %s; first library frame: %s" % (tag, fatal.group(0), frames[:1]), {"output": out[-3000:]})
+            continue
+        if race and "WARNING: DATA RACE" in out:
+            blocks = out.split("WARNING: DATA RACE")[1:]
+            # a report counts when one of the two racing accesses is itself in library code (the frame right under "Read at" /
+            # "Write at" / "Previous ... at"), not when library code merely calls into the harness
+            def racing_frames(b):
+                ls = b.split("==================")[0].splitlines()
+                return [ls[i + 1].strip() for i, l in enumerate(ls[:-1]) if re.match(r"\s*(Previous )?(read|write|Read|Write|atomic read|atomic write).* at 0x", l)]
+            libs = [b for b in blocks if any(f.startswith("github.com/ovh/kmip-go/") for f in racing_frames(b))]
+            if libs:
+                fr = next(f for f in racing_frames(libs[0]) if f.startswith("github.com/ovh/kmip-go/"))
+                fr = re.match(r"github\.com/ovh/kmip-go/[\w./()*]+", fr)
+                ctx.violation("churn:data-race:" + (fr.group(0) if fr else "?"), "the race detector reports unsynchronised access in library code under connection churn: %s" % libs[0][:1500], {"report": libs[0][:4000]})
+                continue
+        if rc != 0 or not os.path.exists(opath):
+            raise vlib.Inconclusive("churn driver failed (%s) rc=%s\n%s" % (tag, rc, out[-2000:]))
+        res = [x for x in vlib.read_ndjson(opath) if x.get("summary")]
+        if not res:
+            raise vlib.Inconclusive("churn driver wrote no summary (%s)" % tag)
+        for prob in res[0]["problems"] or []:
+            ctx.violation("churn:" + prob.split(":")[0].split(" ")[0], "free-running clients (%s): %s" % (tag, prob), {"problem": prob})
+        log = vlib.read_ndjson(tpath)
+        t = ctx.tlc("TraceChurn", "Churn_trace.cfg", workers=1, env={"TRACE_FILE": tpath}, must_pass=False, count=False, label="churn_" + tag)
+        if not t.ok:
+            m = re.search(r"REJECTED_AT\D+(\d+)", t.out)
+            if not m:
+                raise vlib.Inconclusive("churn trace validation failed:\n" + t.out[-2000:])
+            pos = int(m.group(1))
+            ctx.violation("churn:trace-rejected:" + str(log[pos - 1].get("ev")), "Churn.tla does not explain event %d of the recorded run (%s): %s after %s" % (
+                pos, tag, json.dumps(log[pos - 1]), json.dumps([x for x in log[max(0, pos - 200):pos - 1] if x.get("c") == log[pos - 1].get("c")][-8:])), {"event": log[pos - 1]})
+        else:
+            ctx.traces_validated += len([x for x in log if x["ev"] == "connect"])
+        info[tag] = {"rounds": res[0]["rounds"], "workers": res[0]["workers"], "events": len(log)}
+    return info
+
+
 def run(ctx):
+    churn_info = churn(ctx)
     ctx.tlc("Server", "Server_c1.cfg" if not ctx.quick else "Server_c1q.cfg", coverage=not ctx.quick)
     ctx.tlc("Server", "Server_live.cfg" if not ctx.quick else "Server_liveq.cfg")
     seeds = [ctx.seed] if ctx.quick else [ctx.seed * 10 + i for i in range(6)]
@@ -40,6 +93,8 @@ def run(ctx):
         "rule": "a run = one controlled execution of the real kmipserver over in-memory connections (gate controller releases one goroutine or performs one client action at a time); %d runs start from TLC-generated schedules into the critical windows (%s), the rest are seeded random walks of the controller; distinct = distinct release/environment sequences; every run is validated event by event by TLC against TraceServer.tla and judged by the property-level oracle (panic, leaked goroutine, response order/duplication/completeness, invalid-message reply)" % (len(scheds), ", ".join(TRAPS)),
         "tls_histories": ntls, "tls_steps": tls_steps,
         "tls_rule": "TlsAccept.tla: every history of 5 (quick) / 7 (thorough) steps of three clients of kinds silent / abort (partial ClientHello, close) / full (handshake, request, close) is replayed against a real server behind crypto/tls over the in-memory network in a synctest bubble; after every step the bubble runs to quiescence: a handshake step must complete and a request step must be answered whatever the other clients are doing; at the end Shutdown returns, Serve returns, hooks pair, no goroutine runs server code",
+        "churn": churn_info,
+        "churn_rule": "real parallelism (no controller): 4 x GOMAXPROCS clients per round connect, send 1..3 requests (some to a panicking handler), read the responses and disconnect (one in five without reading the last response) against a real server over the in-memory listener, then Shutdown; the process must survive, every request read for is answered with its own response, hooks pair, no goroutine runs server code afterwards; the event log is validated by TLC against Churn.tla; the same run under the race detector must report no unsynchronised access in library code",
         "http_requests": nhttp,
         "http_rule": "every XML / JSON request document enumerated by TLC from TextShapes.tla (well-formed, alternative notations and ~110 malformations per node) is posted to kmipserver.NewHTTPHandler: ServeHTTP must return, with status 200 and exactly one response message of one item, failed when the request cannot be decoded",
         "trap_schedules": len(scheds), "schedule_commands_diverged": div, "events_validated": len(log),
